@@ -217,6 +217,49 @@ func init() {
 				construct := ord[name].next("call lisp.GoInt")
 				if strings.HasSuffix(name, ".lenConstraint") {
 					obs = append(obs, mkOb(c, "SCHEMA.number-accessor", s.Unit, construct, s.Call, Proved, "length bound (lengths are integers)", false))
+					// GoInt truncates a float: a fractional bound must have been refused before it is read
+					// — the call is reachable only over an edge on which the bound is known not to be a
+					// fractional float (a test of its Type against LFloat / LInt, or of its Float against
+					// math.Trunc / a round trip through int, whose failing edge returns)
+					info := s.Unit.Pkg.TypesInfo
+					fc := c.cfgOf(s.Unit, s.Lit)
+					loc, lok := fc.Locate(s.Call)
+					argKey := ""
+					if len(s.Call.Args) == 1 {
+						argKey = aliasResolvedString(info, s.Unit.Decl.Body, s.Call.Args[0])
+					}
+					guarded := false
+					if lok && argKey != "" {
+						for _, b := range fc.G.Blocks {
+							cond := fc.CondOf(b)
+							if !fc.Live(b) || cond == nil {
+								continue
+							}
+							mentionsFloat := false
+							fc.inspectCond(cond, func(e ast.Expr) {
+								ast.Inspect(e, func(m ast.Node) bool {
+									if se, ok := m.(*ast.SelectorExpr); ok && se.Sel.Name == "Float" && aliasResolvedString(info, s.Unit.Decl.Body, se.X) == argKey {
+										mentionsFloat = true
+									}
+									return true
+								})
+							}, 0)
+							if !mentionsFloat {
+								continue
+							}
+							for k := 0; k < 2; k++ {
+								if fc.edgeReturns(cfgEdge{b, k}, nil) && fc.Dominates(Loc{b, len(b.Nodes) - 1}, loc) {
+									guarded = true
+								}
+							}
+						}
+					}
+					fconstruct := ord[name].next("fractional bound refused before GoInt")
+					if guarded {
+						obs = append(obs, mkOb(c, "SCHEMA.number-accessor", s.Unit, fconstruct, s.Call, Proved, "a test of the bound's Float value, one edge of which returns, dominates the read", true))
+					} else {
+						obs = append(obs, mkOb(c, "SCHEMA.number-accessor", s.Unit, fconstruct, s.Call, Violated, "the length bound is read through GoInt, which truncates a float, and nothing refuses a fractional bound first: (s:len 2.5) is built as (s:len 2) and accepts \"ab\", although no value has length 2.5 — a malformed schema is not rejected when it is built", true))
+					}
 				} else {
 					obs = append(obs, mkOb(c, "SCHEMA.number-accessor", s.Unit, construct, s.Call, Violated, "a numeric constraint reads a number through GoInt, which truncates a fractional value: (s:gte 4.5) would accept 4", true))
 				}
